@@ -5,6 +5,7 @@ package c05
 
 import (
 	"fmt"
+	"os"
 	"path"
 	"sort"
 	"strings"
@@ -210,8 +211,13 @@ func frame(o fsx.Op, out fsx.Out, before, after fsx.Snap, cwd string) []string {
 		add(d, true)
 	case "RenameTemp":
 		return nil // harness step
+	case "Mkdir", "Remove", "RemoveAll", "Rename", "Link", "Lchown", "Lstat", "Readlink":
+		// these act on a final symbolic link itself: what the link points to is not named
+		add(o.P, false)
+		add(o.P2, false)
 	default:
-		add(o.P, true)
+		excl := o.K == "Open" && o.Flag&(os.O_CREATE|os.O_EXCL) == os.O_CREATE|os.O_EXCL
+		add(o.P, !excl)
 		add(o.P2, true)
 	}
 	var bad []string
@@ -513,6 +519,58 @@ func TestCheck(t *testing.T) {
 			}
 			return nil
 		})
+	}
+
+	// (ii') final states of concurrent executions, systematically: every pair of calls that give a
+	// name to something (or take it away), aimed at ONE name from different sources, under every
+	// schedule with at most 2 pre-emptions - two creators of one name are where a link count
+	// and the entries that justify it part company
+	for _, kind := range []string{"MemFS", "OrefaFS"} {
+		prefix := []fsx.Op{{K: "Mkdir", P: "/w/a", Perm: 0o755}, {K: "Mkdir", P: "/w/b", Perm: 0o755}, {K: "WriteFile", P: "/w/a/x", Data: "AX", Perm: 0o644},
+			{K: "WriteFile", P: "/w/b/x", Data: "BX", Perm: 0o644}, {K: "Link", P: "/w/b/x", P2: "/w/b/hl"}, {K: "Mkdir", P: "/w/b/d", Perm: 0o755}}
+		hot := "/w/a/y"
+		tmpl := [][]fsx.Op{
+			{{K: "Link", P: "/w/a/x", P2: hot}}, {{K: "Link", P: "/w/b/x", P2: hot}}, {{K: "Rename", P: "/w/a/x", P2: hot}}, {{K: "Rename", P: "/w/b/x", P2: hot}}, {{K: "Rename", P: "/w/b/hl", P2: hot}},
+			{{K: "Mkdir", P: hot, Perm: 0o755}}, {{K: "Rename", P: "/w/b/d", P2: hot}}, {{K: "Open", P: hot, Flag: os.O_WRONLY | os.O_CREATE | os.O_EXCL, Perm: 0o644, H: 0}, {K: "FClose", H: 0}},
+			{{K: "Open", P: hot, Flag: os.O_WRONLY | os.O_CREATE | os.O_TRUNC, Perm: 0o644, H: 0}, {K: "FClose", H: 0}}, {{K: "Remove", P: hot}}, {{K: "RemoveAll", P: "/w/a"}}, {{K: "Rename", P: hot, P2: "/w/b/z"}},
+		}
+		idx, execs := 0, 0
+		for a, t1 := range tmpl {
+			for b, t2 := range tmpl {
+				if b < a {
+					continue
+				}
+				idx++
+				if idx%c.NShards != c.Shard {
+					continue
+				}
+				p := conc.Program{FS: kind, Prefix: prefix, Workers: [][]fsx.Op{t1, t2}}
+				var pending *conc.Pending
+				var first *vt.Deviation
+				var trace []int
+				n, _ := sched.Explore(func() *sched.Sched {
+					pending = conc.Prepare(p)
+					return pending.S
+				}, 2, c.Pick(150, 1500), func(v sched.Verdict) bool {
+					res := pending.Finish(v)
+					c.Eval(1)
+					if v.Contended && v.Preempt > 0 {
+						c.NonTrivial(vt.Hash64(p.String(), fmt.Sprint(v.Trace)))
+					}
+					if dev := concResultDev(p, res); dev != nil && first == nil {
+						first, trace = dev, v.Trace
+						return false
+					}
+					return true
+				})
+				execs += n
+				if first != nil {
+					p.Trace = trace
+					c.Report(first, Case{Kind: "conc", FS: kind, Conc: &p})
+				}
+			}
+		}
+		c.Extra("systematic_same_name_"+kind, fmt.Sprintf("%d scheduled executions of pairs of %d templates aimed at one name (this shard)", execs, len(tmpl)))
 	}
 
 	// (iii) final states of concurrent executions (random programs and schedules)
